@@ -111,8 +111,9 @@ def _alarm(*_a):
 
 # ------------------------------------------------------------------ unitaries: reference value and memory form
 LAYOUTS = ("C", "F", "T", "NEG", "NEGR", "STRIDE", "OFF", "FOFF", "MAT", "RO", "SUB", "FRO")
-DTYPES = {"gen": ("c128", "c128", "c64"), "sym": ("c128", "c64"), "real": ("c128", "f64", "f32", "f64"),
-          "perm": ("c128", "f64", "i64", "i8", "f32", "i64")}
+# complex64 / float32 only for matrices whose entries are exact in them (0, +-1): a rounded matrix is not unitary to 1e-9
+DTYPES = {"gen": ("c128",), "sym": ("c128",), "real": ("c128", "f64", "f64"),
+          "perm": ("c128", "f64", "i64", "i8", "f32", "i64", "c64")}
 _NPDT = {"c128": np.complex128, "c64": np.complex64, "f64": np.float64, "f32": np.float32, "i64": np.int64, "i8": np.int8}
 _W = (1.0, 0.61, 0.37, 0.23)
 _BASE = {}
@@ -131,7 +132,7 @@ def _ortho(rs, d, cplx):
 def _base(kind, nq, seed):
     key = (kind, nq, seed)
     if key not in _BASE:
-        rs = np.random.RandomState(1000003 * seed + 17 * nq + len(kind))
+        rs = np.random.RandomState((1000003 * seed + 17 * nq + len(kind)) % (2 ** 32 - 1))
         d = 1 << nq
         if kind in ("gen", "sym"):
             v = _ortho(rs, d, True)
@@ -500,7 +501,7 @@ def _titems(items, nf):
 def _titem(it, nf):
     t = it[0]
     if t in ("g", "m"):
-        return " ".join([it[1]] + [_targ(a, nf) for a in it[2]])
+        return " ".join([it[1]] + [_targ(a, nf if t == "g" else "plain") for a in it[2]])  # macro arguments may become loop counts
     if t == "loop":
         return f"loop {it[1]} {{ {_titems(it[2], nf)} }}"
     if t == "seq":
@@ -989,9 +990,7 @@ class Session:
             R = Render({"fresh": True, "seq": "mixed"}, ci["sem"])
             donor = self.build_circuit(prog, ci["tid"], {"form": "text"})[0]
             new = L["build"](R.seq(["circuit"] + R.header(prog) + list(donor.macros.values()) + R.body(prog)), inject_pulses=Tb)
-            subs = interpret(prog, ci["sem"], use_override=False)["subs"] if ci["pending"] is None else ci["subs"]
-            if ci["pending"] is None and not prog.get("override"):
-                subs = ci["subs"]
+            subs = interpret(prog, ci["sem"], use_override=True)["subs"]  # the program as written (earlier rebuilds are discarded)
         else:
             raise ValueError(mode)
         self.circs[dst] = dict(ci, c=new, subs=subs)
@@ -1140,3 +1139,709 @@ def run_session(steps):
         signal.alarm(0)
         signal.signal(signal.SIGALRM, old)
     return ("fail" if s.failures else "ok", s)
+
+
+# ------------------------------------------------------------------ generators: tables
+GATE_NAMES = ["G", "GG", "G1", "Ga", "aG", "R", "Rx", "Rxx", "xR", "H", "HH", "U", "UU", "U2", "X", "XX", "X1", "GI", "IG", "Gs"]
+QPN = ["q", "q0", "qq", "a", "ab", "c", "t", "x"]
+CPN = ["th", "t0", "k", "kk", "phi", "th2"]
+SIGS = {1: ["q", "q", "qf", "fq", "qi", "qff", "iqf"], 2: ["qq", "qq", "qqf", "qfq", "fqq", "qiq"], 3: ["qqq", "qqqf", "qfqq"]}
+
+
+def gen_uspec(rng, nq, lay=None, kind=None, dt=None):
+    kind = kind or rng.choice(["gen", "gen", "gen", "real", "perm", "sym"])
+    u = {"k": kind, "nq": nq, "seed": rng.randrange(10 ** 6), "lay": lay or rng.choice(LAYOUTS), "dt": dt or rng.choice(DTYPES[kind])}
+    if rng.random() < 0.3:
+        u["cache"] = True
+    return u
+
+
+def gen_params(rng, sig):
+    qn, cn = rng.sample(QPN, len(QPN)), rng.sample(CPN, len(CPN))
+    return [[qn.pop() if k == "q" else cn.pop(), k] for k in sig]
+
+
+def gen_entry(rng, name, nq, sig=None, lay=None, kind=None, dt=None):
+    sig = sig or rng.choice(SIGS[nq])
+    return {"name": name, "params": gen_params(rng, sig), "u": gen_uspec(rng, nq, lay, kind, dt)}
+
+
+def gen_table(rng, lay=None, three=None, extra=0):
+    names = rng.sample(GATE_NAMES, len(GATE_NAMES))
+    ent = [gen_entry(rng, names.pop(), 1, "q", lay), gen_entry(rng, names.pop(), 1, rng.choice(["qf", "fq", "qi", "iqf"]), lay),
+           gen_entry(rng, names.pop(), 2, "qq", lay), gen_entry(rng, names.pop(), 2, rng.choice(["qqf", "qfq", "fqq"]), lay)]
+    if three if three is not None else rng.random() < 0.5:
+        ent.append(gen_entry(rng, names.pop(), 3, None, lay))
+    for _ in range(extra + rng.randrange(0, 3)):
+        ent.append(gen_entry(rng, names.pop(), rng.choice([1, 1, 2]), None, lay))
+    if rng.random() < 0.4:
+        ent.append({"name": names.pop(), "params": gen_params(rng, "q"), "u": None})
+    rng.shuffle(ent)
+    return ent
+
+
+def callable_gates(sem, n):
+    return [g for g, e in sem.items() if not e.get("busy") and not (e["u"] is not None and "bad" in e["u"])
+            and sum(1 for _p, k in e["params"] if k == "q") <= n]
+
+
+# ------------------------------------------------------------------ generators: programs
+NAMESETS = {
+    "plain": {"let": ["alpha", "beta", "kx", "cnt", "sz", "gam"], "reg": ["r"], "map": ["w", "v", "e", "f", "d"], "macro": ["m", "n", "o", "p"],
+              "par": ["x", "y", "z", "s", "u", "h"]},
+    "substr": {"let": ["a", "ab", "abc", "b", "ba", "aa"], "reg": ["q"], "map": ["q0", "qq", "q1", "qa", "aq"], "macro": ["mm", "m", "m1", "am"],
+               "par": ["x", "xx", "x0", "p", "pp", "xp"]},
+}
+
+
+class PGen:
+    def __init__(self, rng, sem, knobs=None):
+        self.rng, self.sem = rng, sem
+        self.k = dict({"n": None, "empties": 0.1, "macros": (0, 2), "maps": (0, 3), "subs": (1, 3), "names": None, "override": 0.3,
+                       "len": (2, 7), "order": None, "loops": 0.25, "pars": 0.2, "style": None}, **(knobs or {}))
+
+    def build(self):
+        rng, k = self.rng, self.k
+        ns = NAMESETS[k["names"] or rng.choice(["plain", "substr"])]
+        pool = {kind: list(v) for kind, v in ns.items()}
+        for v in pool.values():
+            rng.shuffle(v)
+        n = self.n = k["n"] or rng.choice([1, 2, 2, 3, 3, 4])
+        self.gates = callable_gates(self.sem, n)
+        if not self.gates:
+            raise Invalid("no gate fits")
+        lets = []
+        self.flets = [[pool["let"].pop(), rng.choice([0.3, -1.1, 2.5, 0.75, 1, 0.0])] for _ in range(rng.randint(1, 2))]
+        self.ilet = [pool["let"].pop(), rng.randrange(n)]
+        self.clet = [pool["let"].pop(), rng.choice([0, 1, 2, 2, 3])]
+        lets = self.flets + [self.ilet, self.clet]
+        size = n
+        if rng.random() < 0.25:
+            sl = [pool["let"].pop(), n]
+            lets.append(sl)
+            size = sl[0]
+        order = k["order"] or rng.choice(["given", "shuffle", "desc", "asc"])
+        if order == "shuffle":
+            rng.shuffle(lets)
+        elif order in ("desc", "asc"):
+            lets.sort(key=lambda x: x[0], reverse=order == "desc")
+        rname = pool["reg"].pop()
+        self.regs = {rname: list(range(n))}
+        self.named = {}
+        maps = []
+        for _ in range(rng.randint(*k["maps"])):
+            name = pool["map"].pop()
+            src = rng.choice(list(self.regs))
+            base = self.regs[src]
+            kind = rng.choice(["whole", "item", "slice", "slice"])
+            if kind == "whole":
+                maps.append([name, src, None])
+                self.regs[name] = list(base)
+            elif kind == "item":
+                j = rng.randrange(len(base))
+                maps.append([name, src, ["i", self.ilet[0] if j == self.ilet[1] and rng.random() < 0.5 else j]])
+                self.named[name] = base[j]
+            else:
+                lo, hi = sorted(rng.sample(range(len(base) + 1), 2)) if len(base) > 0 else (0, 1)
+                st = rng.choice([1, 1, 2, -1])
+                if st == -1:
+                    if hi - 1 <= lo and lo == 0 and hi <= 1:
+                        st = 1
+                    else:
+                        lo, hi = hi - 1, max(lo - 1, 0)
+                        if lo <= hi:
+                            lo, hi, st = hi, lo + 1, 1
+                idx = list(range(lo, hi, st))
+                if not idx:
+                    continue
+                maps.append([name, src, ["s", lo, hi, st]])
+                self.regs[name] = [base[j] for j in idx]
+        self.macros = []  # [name, params, body, roles]
+        for _ in range(rng.randint(*k["macros"])):
+            self.gen_macro(pool)
+        subs = []
+        for _ in range(rng.randint(*k["subs"])):
+            ctx = {"q": list(range(n)), "top": True, "nums": [], "cnts": []}
+            items = self.items(ctx, rng.randint(*k["len"]), 0)
+            subs.append({"style": k["style"] or rng.choice(["pm", "pm", "blk"]), "items": items})
+        prog = {"lets": lets, "reg": [rname, size], "maps": maps, "macros": [m[:3] for m in self.macros], "subs": subs, "override": None}
+        if rng.random() < k["override"]:
+            ov = {}
+            for name, _v in rng.sample(self.flets, rng.randint(1, len(self.flets))):
+                ov[name] = rng.choice([0.9, -0.4, 3, 0.0, 1.5])
+            if rng.random() < 0.4:
+                ov[self.ilet[0]] = rng.randrange(n)
+            if rng.random() < 0.4:
+                ov[self.clet[0]] = rng.choice([0, 1, 2, 3])
+            items_ = list(ov.items())
+            rng.shuffle(items_)
+            prog["override"] = dict(items_)
+        return prog
+
+    # qubit handle -> argument
+    def qref(self, ctx, h):
+        rng = self.rng
+        if not ctx["top"]:
+            return ["n", h]
+        opts = []
+        for r, phys in self.regs.items():
+            for j, p in enumerate(phys):
+                if p == h:
+                    opts.append(["q", r, j])
+                    if j == self.ilet[1]:
+                        opts.append(["q", r, self.ilet[0]])
+        for nm, p in self.named.items():
+            if p == h:
+                opts += [["n", nm]] * 2
+        return rng.choice(opts)
+
+    def fnum(self, ctx):
+        rng = self.rng
+        c = rng.random()
+        if ctx["nums"] and c < 0.4:
+            return ["n", rng.choice(ctx["nums"])]
+        if c < 0.65:
+            return ["n", rng.choice(self.flets)[0]]
+        return rng.choice([0.3, -1.1, 2.5, 0.0, 1, 2, -0.0, 0.125, 7])
+
+    def inum(self, ctx):
+        rng = self.rng
+        c = rng.random()
+        if ctx["cnts"] and c < 0.3:
+            return ["n", rng.choice(ctx["cnts"])]
+        if c < 0.5:
+            return ["n", rng.choice([self.ilet, self.clet])[0]]
+        return rng.choice([0, 1, 2, 3, 2.0, 5])
+
+    def cnt(self, ctx):
+        rng = self.rng
+        c = rng.random()
+        if ctx["cnts"] and c < 0.35:
+            return rng.choice(ctx["cnts"])
+        if c < 0.55:
+            return self.clet[0]
+        return rng.choice([0, 1, 2, 2, 3])
+
+    def gate(self, ctx, avail=None):
+        rng = self.rng
+        avail = list(ctx["q"] if avail is None else avail)
+        fits = [g for g in self.gates if sum(1 for _p, kk in self.sem[g]["params"] if kk == "q") <= len(avail)]
+        if not fits:
+            return None, []
+        g = rng.choice(fits)
+        e = self.sem[g]
+        qs = rng.sample(avail, sum(1 for _p, kk in e["params"] if kk == "q"))
+        it = iter(qs)
+        args = [self.qref(ctx, next(it)) if kk == "q" else self.fnum(ctx) if kk == "f" else self.inum(ctx) for _p, kk in e["params"]]
+        return ["g", g, args], qs
+
+    def call(self, ctx):
+        rng = self.rng
+        fits = [m for m in self.macros if sum(1 for r in m[3] if r == "q") <= len(ctx["q"]) and (ctx["top"] or m[0] in ctx["visible"])]
+        if not fits:
+            return None
+        m = rng.choice(fits)
+        qs = iter(rng.sample(ctx["q"], sum(1 for r in m[3] if r == "q")))
+        args = []
+        for r in m[3]:
+            if r == "q":
+                args.append(self.qref(ctx, next(qs)))
+            elif r == "f":
+                args.append(self.fnum(ctx))
+            else:
+                c = self.cnt(ctx)
+                args.append(["n", c] if isinstance(c, str) else c)
+        return ["m", m[0], args]
+
+    def items(self, ctx, count, depth):
+        rng, k = self.rng, self.k
+        out = []
+        for _ in range(count):
+            c = rng.random()
+            if c < k["empties"]:
+                out.append(rng.choice([["par", []], ["loop", self.cnt(ctx), []], ["par", [["seq", []]]], ["loop", 2, [["par", []]]]]))
+                continue
+            c = rng.random()
+            if c < k["loops"] and depth < 2:
+                out.append(["loop", self.cnt(ctx), self.items(ctx, rng.randint(1, 3), depth + 1)])
+            elif c < k["loops"] + k["pars"] and len(ctx["q"]) >= 2:
+                avail = list(ctx["q"])
+                rng.shuffle(avail)
+                brs = []
+                while avail and len(brs) < 3:
+                    take = avail[: rng.randint(1, min(2, len(avail)))]
+                    avail = avail[len(take):]
+                    if rng.random() < 0.3:
+                        inner = []
+                        for _j in range(rng.randint(0, 2)):
+                            g, _qs = self.gate(ctx, take)
+                            if g:
+                                inner.append(g)
+                        brs.append(["seq", inner])
+                    else:
+                        g, qs = self.gate(ctx, take)
+                        if g:
+                            brs.append(g)
+                            avail += [q for q in take if q not in qs]
+                out.append(["par", brs])
+            elif c < k["loops"] + k["pars"] + 0.2 and self.macros:
+                m = self.call(ctx)
+                if m:
+                    out.append(m)
+            else:
+                g, _qs = self.gate(ctx)
+                if g:
+                    out.append(g)
+        return out
+
+    def gen_macro(self, pool):
+        rng = self.rng
+        if not pool["macro"] or len(pool["par"]) < 4:
+            return
+        name = pool["macro"].pop()
+        roles = ["q"] * rng.randint(0 if rng.random() < 0.1 else 1, min(3, self.n)) + rng.choice([[], ["f"], ["f", "c"], ["c"], ["f", "f"]])
+        rng.shuffle(roles)
+        pars = rng.sample(pool["par"], len(roles))
+        ctx = {"q": [p for p, r in zip(pars, roles) if r == "q"], "top": False, "nums": [p for p, r in zip(pars, roles) if r == "f"],
+               "cnts": [p for p, r in zip(pars, roles) if r == "c"], "visible": {m[0] for m in self.macros}}
+        body = self.items(ctx, rng.randint(0 if rng.random() < 0.15 else 1, 4), 1) if ctx["q"] else []
+        self.macros.append([name, pars, body, roles])
+
+
+def gen_prog(rng, sem, knobs=None, tries=40):
+    for _ in range(tries):
+        try:
+            prog = PGen(rng, sem, knobs).build()
+            if prog.get("override"):
+                try:
+                    interpret(prog, sem, True)
+                except Invalid:
+                    prog["override"] = None
+            sem_ = interpret(prog, sem, False)
+            full = interpret(prog, sem, True)
+            if sum(len(s) for s in full["subs"]) == 0 and rng.random() < 0.8:
+                continue
+            return prog
+        except Invalid:
+            continue
+    raise Invalid("no valid program")
+
+
+# ------------------------------------------------------------------ generators: sessions
+FORMS = ("text", "sexpr", "builder")
+NFS = ("plain", "plain", "np", "intfloat", "bool", "npint")
+BACKENDS = ("default", "fresh", "shared")
+BADMODES = ("arity", "zerodiv", "jaqal", "interrupt", "none", "shape")
+PASSES = ("S", "L", "M", "Mk")
+REBUILDS = ("same", "pieces", "dup", "loopwrap", "deepcopy", "copy", "regates", "macros_from")
+
+
+def sem_of(steps):
+    """the reference tables after the construction steps (no circuits, no runs): used by the generators"""
+    s = Session()
+    s.execute([st for st in steps if st[0] in ("table", "copy", "subset", "merge", "stretch", "idle", "clone")])
+    if s.failures:
+        raise Invalid(s.failures[0][1])
+    return s.sems
+
+
+def rand_how(rng, form=None, trap=False):
+    how = {"form": form or rng.choice(FORMS)}
+    if how["form"] != "text":
+        how.update(fresh=rng.random() < (0.9 if trap else 0.4), share=rng.random() < (0.8 if trap else 0.3), seq=rng.choice(["list", "tuple", "mixed"]))
+        if how["form"] == "builder" and rng.random() < 0.3:
+            how["lazy"] = True
+    else:
+        how["ov"] = rng.choice(["parse", "fill"])
+    return how
+
+
+def s_numeric(rng, lay=None, nq=None, kind=None, dt=None, nf=None):
+    if lay is not None:
+        ent = [gen_entry(rng, "G" + str(i), nq, sig, lay, kind, dt) for i, sig in enumerate(rng.sample(SIGS[nq], 2))]
+        ent.append(gen_entry(rng, "H", 1, "q", rng.choice(LAYOUTS)))
+        n = min(4, nq + rng.choice([0, 1]))
+    else:
+        ent, n = gen_table(rng, three=rng.random() < 0.6), None
+    steps = [["table", "T", ent, {"fresh": rng.random() < 0.3}]]
+    prog = gen_prog(rng, sem_of(steps)["T"], {"n": n, "macros": (0, 1), "override": 0.15})
+    how = rand_how(rng)
+    how["nf"] = nf or rng.choice(NFS)
+    steps += [["circ", "c", prog, "T", how], ["run", "c", rng.choice(BACKENDS), rng.choice(ORDERS)]]
+    if rng.random() < 0.4:  # the same table again: cached arrays are handed out a second time
+        steps += [["circ", "d", gen_prog(rng, sem_of(steps)["T"], {"macros": (0, 1)}), "T", rand_how(rng)], ["run", "d", "default", "sv_first"],
+                  ["run", "c", "default", "sv_first"]]
+    return steps
+
+
+def permuted(rng, params):
+    p = list(params)
+    for _ in range(5):
+        rng.shuffle(p)
+        if p != list(params):
+            break
+    return [list(x) for x in p]
+
+
+def s_derived(rng, variant=None):
+    ent = gen_table(rng, three=rng.random() < 0.4)
+    steps = [["table", "T0", ent, {}]]
+    sem0 = sem_of(steps)["T0"]
+    warm = variant in (None, "warm") and rng.random() < (1.0 if variant == "warm" else 0.6)
+    p0 = gen_prog(rng, sem0, {"macros": (0, 1), "len": (4, 9)})
+    # make the warm-up use every gate once, so that every parent has been emulated
+    if warm:
+        n0 = interpret(p0, sem0)["n"]
+        reg = p0["reg"][0]
+        for g in callable_gates(sem0, n0):
+            qs = iter(rng.sample(range(n0), sum(1 for _p, k in sem0[g]["params"] if k == "q")))
+            p0["subs"][0]["items"].append(["g", g, [["q", reg, next(qs)] if k == "q" else 1 for _p, k in sem0[g]["params"]]])
+        steps += [["circ", "p0", p0, "T0", rand_how(rng)], ["run", "p0", rng.choice(BACKENDS), "sv_first"]]
+    steps.append(["subset", "T1", "T0", None])
+    names = [e["name"] for e in ent]
+    newn = [x for x in ["D", "DD", "D1", "Dx", "xD", "E", "EE"] if x not in names]
+    made = []
+    for _ in range(rng.randint(2, 4)):
+        src = rng.choice(names + made)
+        cur = sem_of(steps)["T1"][src]
+        nq = sum(1 for _p, k in cur["params"] if k == "q")
+        ch = {"name": True, "params": None, "u": None}
+        c = rng.random()
+        if c < 0.6 or cur["u"] is None:
+            ch["u"] = gen_uspec(rng, nq)
+        if rng.random() < 0.35:
+            ch["params"] = permuted(rng, cur["params"])
+        key = newn.pop()
+        steps.append(["copy", "T1", key, src, ch])
+        made.append(key)
+    last = "T1"
+    c = rng.random()
+    if c < 0.3:
+        steps += [["stretch", "S", "T1", "_s", False], ["merge", "T2", ["T1", "S"]]]
+        last = "T2"
+        if rng.random() < 0.5:
+            steps.append(["idle", "T3", "T2"])
+            last = "T3"
+    elif c < 0.55:
+        steps += [["idle", "I", "T1"], ["stretch", "S", "I", rng.choice(["_t", "_stretched"]), False], ["merge", "T2", ["I", "S"]]]
+        last = "T2"
+    elif c < 0.7:
+        steps += [["subset", "U", "T1", None], ["stretch", "T2", "U", "_x", True]]
+        last = "T2"
+    if rng.random() < 0.25:
+        steps.append(["clone", "T9", last, rng.choice(["copy", "deepcopy"])])
+        last = "T9"
+    semL = sem_of(steps)[last]
+    for i in range(rng.randint(1, 2)):
+        steps += [["circ", f"c{i}", gen_prog(rng, semL, {"macros": (0, 1), "len": (4, 9)}), last, rand_how(rng)],
+                  ["run", f"c{i}", rng.choice(BACKENDS), "sv_first"]]
+    # the parents after their children
+    if warm:
+        steps.append(["run", "p0", "default", "sv_first"])
+    else:
+        steps += [["circ", "p0", p0, "T0", rand_how(rng)], ["run", "p0", "default", "sv_first"]]
+    steps.append(["reread"])
+    return steps
+
+
+def s_language(rng):
+    ent = gen_table(rng, extra=2)
+    steps = [["table", "T", ent, {"fresh": True, "busy_last": rng.random() < 0.5}]]
+    knobs = {"names": "substr", "empties": rng.choice([0.1, 0.3]), "order": rng.choice(["shuffle", "desc", "asc"]), "macros": (1, 3), "maps": (1, 4),
+             "loops": 0.3, "pars": 0.25}
+    prog = gen_prog(rng, sem_of(steps)["T"], knobs)
+    how = rand_how(rng, rng.choice(["sexpr", "builder", "sexpr", "text"]), trap=True)
+    steps += [["circ", "c", prog, "T", how]]
+    if rng.random() < 0.4:
+        steps.append(["pass", "c", "c", rng.choice(PASSES)])
+    steps.append(["run", "c", rng.choice(BACKENDS), rng.choice(ORDERS)])
+    return steps
+
+
+def with_bad(rng, prog, sem, badname, after=None, sub=None, second=False):
+    """a copy of `prog` with a call of the faulty gate after `after` top-level statements of subcircuit `sub`"""
+    p = json.loads(json.dumps(prog))
+    sub = rng.randrange(len(p["subs"])) if sub is None else sub % len(p["subs"])
+    items = p["subs"][sub]["items"]
+    n = interpret(prog, sem)["n"]
+    nq = sum(1 for _p, k in sem[badname]["params"] if k == "q")
+    if nq > n:
+        raise Invalid("faulty gate too wide")
+    qs = iter(rng.sample(range(n), nq))
+    call = ["g", badname, [["q", p["reg"][0], next(qs)] if k == "q" else 0.5 for _p, k in sem[badname]["params"]]]
+    after = rng.randint(0, len(items)) if after is None else min(after, len(items))
+    items.insert(after, call)
+    if second:  # a second defect
+        items.append(["g", badname, [["q", p["reg"][0], 99] if k == "q" else 0.5 for _p, k in sem[badname]["params"]]])
+    return p
+
+
+def plain_gates(rng, sem, n, reg, count):
+    """`count` plain gate statements on the fundamental register"""
+    out = []
+    gates = callable_gates(sem, n)
+    for _ in range(count):
+        g = rng.choice(gates)
+        qs = iter(rng.sample(range(n), sum(1 for _p, k in sem[g]["params"] if k == "q")))
+        out.append(["g", g, [["q", reg, next(qs)] if k == "q" else rng.choice([0.3, 1, 2]) for _p, k in sem[g]["params"]]])
+    return out
+
+
+def s_exception(rng, mode=None, depth=None, kind=None):
+    ent = gen_table(rng, three=rng.random() < 0.3)
+    mode = mode or rng.choice(BADMODES)
+    for i, nq in enumerate((1, 2)):
+        ent.append({"name": f"BAD{i}", "params": gen_params(rng, rng.choice(SIGS[nq])), "u": {"bad": mode, "nq": nq}})
+    steps = [["table", "T", ent, {}]]
+    sem = sem_of(steps)["T"]
+    n = rng.choice([1, 2, 2, 3, 3])
+    backend = rng.choice(BACKENDS)
+    valid = gen_prog(rng, sem, {"n": n, "macros": (0, 1)})
+    kind = kind or rng.choice(["unitary", "unitary", "unitary", "pass", "parse", "builder", "twice"])
+    if rng.random() < 0.5:
+        steps += [["circ", "w", gen_prog(rng, sem, {"n": n, "macros": (0, 1)}), "T", rand_how(rng)], ["run", "w", backend, "sv_first"]]
+    steps.append(["circ", "v", valid, "T", rand_how(rng, None)])
+    if kind in ("unitary", "twice"):
+        for _ in range(2 if kind == "twice" else 1):
+            d = rng.randint(0, 6) if depth is None else depth
+            base = {"lets": [], "reg": ["r", n], "maps": [], "macros": [], "override": None,
+                    "subs": [{"style": "pm", "items": plain_gates(rng, sem, n, "r", 2)} for _ in range(rng.choice([0, 0, 1]))]
+                    + [{"style": rng.choice(["pm", "blk"]), "items": plain_gates(rng, sem, n, "r", d + rng.randint(0, 2))}]}
+            bad = with_bad(rng, base, sem, "BAD0" if n == 1 or rng.random() < 0.6 else "BAD1", after=d, sub=len(base["subs"]) - 1, second=rng.random() < 0.2)
+            steps.append(["failrun", bad, "T", {"form": rng.choice(["text", "sexpr"])}, backend])
+    elif kind == "pass":
+        ilet = [nm for nm, v in valid["lets"] if isinstance(v, int)]
+        steps.append(["failpass", "v", {rng.choice(ilet): 99, **({valid["lets"][0][0]: 0.5} if rng.random() < 0.5 else {})}])
+        steps.append(["failrun", dict(valid, override={nm: 99 for nm in ilet}), "T", {"form": "text", "ov": rng.choice(["parse", "fill"])}, backend])
+    elif kind == "parse":
+        text = to_text(valid)
+        cut = rng.choice([text.replace("register", "register register", 1), text + "NoSuchGate " + valid["reg"][0] + "[0]\n", text[: len(text) * 2 // 3] + " {",
+                          text.replace(PREP, MEAS, 1)])
+        steps.append(["failparse", cut, "T"])
+        steps.append(["failrun", with_bad(rng, valid, sem, "BAD0"), "T", {"form": "text"}, backend])
+    else:
+        steps[-1] = ["circ", "v", valid, "T", dict(rand_how(rng, "builder"), stumble=rng.choice(["unknown", "index", "let"]))]
+        steps.append(["failrun", with_bad(rng, valid, sem, "BAD0"), "T", {"form": "builder"}, backend])
+    steps.append(["run", "v", backend, rng.choice(ORDERS)])
+    if rng.random() < 0.5:
+        other = rng.choice([b for b in BACKENDS if b != backend])
+        steps += [["circ", "x", gen_prog(rng, sem, {"n": n, "macros": (0, 1)}), "T", rand_how(rng)], ["run", "x", other, "sv_first"]]
+    steps.append(["reread"])
+    return steps
+
+
+def s_reentrant(rng):
+    ent = gen_table(rng)
+    steps = [["table", "T", ent, {}]]
+    sem = sem_of(steps)["T"]
+    prog = gen_prog(rng, sem, {"macros": (1, 2), "override": 0.4})
+    steps.append(["circ", "c0", prog, "T", rand_how(rng)])
+    cur = 0
+    for _ in range(rng.randint(2, 5)):
+        if rng.random() < 0.5:
+            steps.append(["pass", f"c{cur + 1}", f"c{cur}", rng.choice(PASSES)])
+        else:
+            steps.append(["rebuild", f"c{cur + 1}", f"c{cur}", rng.choice(REBUILDS), rng.randrange(4)])
+        cur += 1
+        if rng.random() < 0.4:
+            steps.append(["run", f"c{cur}", rng.choice(BACKENDS), "sv_first"])
+    steps.append(["run", f"c{cur}", rng.choice(BACKENDS), rng.choice(ORDERS)])
+    if rng.random() < 0.5:  # a second circuit over the same table / over the first circuit's native_gates, then the first again
+        steps += [["circ", "o", gen_prog(rng, sem, {"macros": (0, 1)}), "T", rand_how(rng)], ["rebuild", "o1", "o", "regates", 0],
+                  ["run", "o1", "default", "sv_first"], ["run", "c0", "default", "sv_first"]]
+    steps.append(["reread"])
+    return steps
+
+
+def s_access(rng, order=None):
+    ent = gen_table(rng)
+    steps = [["table", "T", ent, {}]]
+    sem = sem_of(steps)["T"]
+    backend = rng.choice(BACKENDS)
+    for i in range(rng.randint(1, 3)):
+        steps += [["circ", f"c{i}", gen_prog(rng, sem, {"subs": (2, 3), "macros": (0, 1)}), "T", rand_how(rng)],
+                  ["run", f"c{i}", backend, order or rng.choice(ORDERS)]]
+    steps.append(["reread"])
+    if rng.random() < 0.5:
+        steps += [["run", "c0", backend, rng.choice(ORDERS)], ["reread"]]
+    return steps
+
+
+MAKERS = {"numeric_form": s_numeric, "derived": s_derived, "language": s_language, "exception": s_exception, "reentrant": s_reentrant,
+          "access_order": s_access}
+
+
+def sweep_cases(rng, thorough):
+    out = []
+    combos = [(lay, nq, kind) for lay in LAYOUTS for nq in (1, 2, 3) for kind in ("gen", "real", "perm")]
+    if not thorough:
+        combos = [c for c in combos if c[2] == "gen" or rng.random() < 0.25]
+    for lay, nq, kind in combos:
+        dts = DTYPES[kind] if thorough else (rng.choice(DTYPES[kind]),)
+        for dt in sorted(set(dts)):
+            out.append(("numeric_form", lambda r, a=(lay, nq, kind, dt): s_numeric(r, *a, nf="plain")))
+    for nf in NFS[1:]:
+        for _ in range(4 if thorough else 1):
+            out.append(("numeric_form", lambda r, nf=nf: s_numeric(r, nf=nf)))
+    for mode in BADMODES:
+        for depth in (range(0, 7) if thorough else (rng.choice([1, 3, 5]), rng.choice([2, 4, 6]))):
+            out.append(("exception", lambda r, a=(mode, depth): s_exception(r, a[0], a[1], "unitary")))
+    for kind in ("pass", "parse", "builder", "twice"):
+        for _ in range(4 if thorough else 1):
+            out.append(("exception", lambda r, k=kind: s_exception(r, None, None, k)))
+    for _ in range(12 if thorough else 3):
+        out.append(("derived", lambda r: s_derived(r, "warm")))
+        out.append(("derived", lambda r: s_derived(r, "cold")))
+    for order in ORDERS:
+        for _ in range(3 if thorough else 1):
+            out.append(("access_order", lambda r, o=order: s_access(r, o)))
+    return out
+
+
+# ------------------------------------------------------------------ protocol
+WEIGHTS = (("numeric_form", 25), ("derived", 20), ("language", 15), ("exception", 20), ("reentrant", 15), ("access_order", 5))
+
+
+def features(steps, dist):
+    for st in steps:
+        k = st[0]
+        dist["step_" + k] = dist.get("step_" + k, 0) + 1
+        if k == "table":
+            for e in st[2]:
+                u = e["u"]
+                if u is None:
+                    dist["gate_without_unitary"] = dist.get("gate_without_unitary", 0) + 1
+                elif "bad" in u:
+                    dist["faulty_" + u["bad"]] = dist.get("faulty_" + u["bad"], 0) + 1
+                else:
+                    for f in ("layout_" + u["lay"], "dtype_" + u["dt"], "kind_" + u["k"], f"qubits_{u['nq']}", "cached" if u.get("cache") else "uncached"):
+                        dist[f] = dist.get(f, 0) + 1
+        elif k == "circ":
+            how = st[4]
+            for f in ["form_" + how.get("form", "text"), "nf_" + how.get("nf", "plain")] + [x for x in ("fresh", "share", "lazy", "stumble") if how.get(x)]:
+                dist[f] = dist.get(f, 0) + 1
+            if st[2].get("override"):
+                dist["override"] = dist.get("override", 0) + 1
+        elif k == "run":
+            dist["backend_" + st[2]] = dist.get("backend_" + st[2], 0) + 1
+            dist["order_" + st[3]] = dist.get("order_" + st[3], 0) + 1
+        elif k in ("pass", "rebuild"):
+            dist[f"{k}_{st[3]}"] = dist.get(f"{k}_{st[3]}", 0) + 1
+        elif k == "copy":
+            for f in [x for x in ("params", "u") if st[4].get(x) is not None]:
+                dist["copy_new_" + f] = dist.get("copy_new_" + f, 0) + 1
+
+
+def shrink(steps, budget=30):
+    """drop steps while the session still fails (ids that vanish make a session ill-formed: such candidates are skipped)"""
+    cur = list(steps)
+    i = len(cur) - 1
+    while i >= 0 and budget > 0:
+        cand = cur[:i] + cur[i + 1:]
+        budget -= 1
+        try:
+            st, s = run_session(cand)
+        except Exception:
+            st = "error"
+        if st == "fail" and not any("of a session of valid steps raised KeyError" in d for _i, d in s.failures):
+            cur = cand
+        i -= 1
+    return cur
+
+
+def detail_of(steps, s):
+    i, d = s.failures[0]
+    txt = ""
+    st = steps[min(i, len(steps) - 1)]
+    if st[0] == "run":
+        for t in steps:
+            if t[0] == "circ" and t[1] == st[1].rstrip("0123456789") or t[0] == "circ" and t[1] == st[1]:
+                txt = " | program: " + to_text(t[2]).replace("\n", " / ")[:600] + (f" override={t[2]['override']}" if t[2].get("override") else "")
+                break
+    kinds = " ".join(x[0] for x in steps)
+    return f"step {i} ({st[0]}): {d} | session: {kinds}{txt}"
+
+
+def run(seed: int, n: int, driver: str = DEFAULT_DRIVER, thorough: bool = False) -> dict:
+    rng = random.Random(seed * 7919 + (1 if thorough else 0))
+    oracle = {o: {"cases": 0, "failures": []} for o in ORACLES}
+    dist, samples, distinct = {}, [], set()
+    jobs = sweep_cases(rng, thorough)
+    dist["sweep_sessions"] = len(jobs)
+    themes = [t for t, w in WEIGHTS for _ in range(w)]
+    for _ in range(n):
+        t = rng.choice(themes)
+        jobs.append((t, MAKERS[t]))
+    for theme, make in jobs:
+        sub = random.Random(rng.getrandbits(64))
+        try:
+            steps = make(sub)
+        except Invalid:
+            dist["generator_gave_up"] = dist.get("generator_gave_up", 0) + 1
+            continue
+        case = {"theme": theme, "steps": steps}
+        status, s = run_session(steps)
+        if status == "invalid":
+            dist["invalid_session"] = dist.get("invalid_session", 0) + 1
+            continue
+        o = oracle["traps_" + theme]
+        o["cases"] += 1
+        distinct.add(json.dumps(steps, sort_keys=True))
+        features(steps, dist)
+        if status == "ok":
+            for k, v in s.notes.items():
+                dist[k] = dist.get(k, 0) + v
+            dist["judged_runs"] = dist.get("judged_runs", 0) + s.judged
+            dist[f"session_len_{min(len(steps), 16) // 4 * 4}+"] = dist.get(f"session_len_{min(len(steps), 16) // 4 * 4}+", 0) + 1
+            if len(samples) < 4 and sub.random() < 0.05:
+                samples.append(case)
+            continue
+        if len(o["failures"]) >= 20:
+            o["failures"].append(None)
+            o["failures"].pop()
+            dist["failures_not_listed"] = dist.get("failures_not_listed", 0) + 1
+            continue
+        if status == "hang":
+            o["failures"].append({"case": case, "detail": "a session of valid steps hangs"})
+            continue
+        if status == "error":
+            o["failures"].append({"case": case, "detail": s})
+            continue
+        small = shrink(steps) if len(o["failures"]) < 5 else steps
+        st2, s2 = run_session(small)
+        if st2 != "fail":
+            small, s2 = steps, s
+        o["failures"].append({"case": {"theme": theme, "steps": small}, "detail": detail_of(small, s2)})
+    if not samples and jobs:
+        samples.append({"theme": "numeric_form", "steps": s_numeric(random.Random(seed))})
+    return {"corr": {}, "oracle": oracle, "distribution": dist, "samples": samples, "nontrivial": len(distinct)}
+
+
+def replay(case: dict, driver: str = DEFAULT_DRIVER) -> dict:
+    status, s = run_session(case["steps"])
+    if status == "ok":
+        return {"oracle_ok": True, "detail": f"{s.judged} judged reads agree with the reference", "model": None, "impl": None}
+    if status == "fail":
+        return {"oracle_ok": False, "detail": detail_of(case["steps"], s), "model": None, "impl": None}
+    if status == "invalid":
+        return {"oracle_ok": None, "detail": f"not a valid session: {s}", "model": None, "impl": None}
+    return {"oracle_ok": False, "detail": "a session of valid steps hangs" if status == "hang" else str(s), "model": None, "impl": None}
+
+
+def main(argv=None):
+    ap = argparse.ArgumentParser()
+    ap.add_argument("--seed", type=int, default=0)
+    ap.add_argument("--count", type=int, default=300)
+    ap.add_argument("--thorough", action="store_true")
+    a = ap.parse_args(argv)
+    r = run(a.seed, a.count, thorough=a.thorough)
+    print(json.dumps({k: (v["cases"], len(v["failures"])) for k, v in r["oracle"].items()}))
+    for k, v in r["oracle"].items():
+        for f in v["failures"][:3]:
+            print(k, f["detail"][:1500])
+    print(json.dumps(r["distribution"], sort_keys=True))
+    return 1 if any(v["failures"] for v in r["oracle"].values()) else 0
+
+
+if __name__ == "__main__":
+    sys.exit(main())
